@@ -67,16 +67,20 @@ def run(prog, rec):
                 "t": int(tval[(a, b)]), "V": int(vval[(a, b)]), "Ua": int(uval[a]), "Ub": int(uval[b]),
                 "mua": int(mval[a]), "mub": int(mval[b])}
         ses._emit("ham_edge", args, [], ["G"], "method", "ok", "")
-    # site information derived from the same edges
-    try:
-        info = sr.parse_edges_to_site_info(edges, bond_dim=2, phys_dim=2)
-        tab = {"t": "table", "edges": s_edges, "phys": True,
-               "sites": [{"site": rank[s], "inds": [str(i) for i in d["inds"]], "duals": [bool(x) for x in d["duals"]],
-                          "coordination": int(d["coordination"]), "shape": [int(x) for x in d["shape"]]}
-                         for s, d in info.items()]}
-        outcome = "ok"
-    except Exception:  # noqa
-        tab, outcome = {"t": "table", "edges": s_edges, "phys": True, "sites": []}, "raise"
-    ses.regs = {"tab": tab}
-    ses._emit("site_info", {"sym": sym}, [], ["tab"], "method", outcome, "")
+    # site information derived from the same edges: with a physical index and without one
+    variants = [("int", {"bond_dim": 2, "phys_dim": 2}), ("none", {"bond_dim": 3, "phys_dim": None}),
+                ("int4", {"bond_dim": 1, "phys_dim": 4})]
+    for vname, kw in variants:
+        phys = kw["phys_dim"] is not None
+        try:
+            info = sr.parse_edges_to_site_info(edges, **kw)
+            tab = {"t": "table", "edges": s_edges, "phys": phys,
+                   "sites": [{"site": rank[s], "inds": [str(i) for i in d["inds"]], "duals": [bool(x) for x in d["duals"]],
+                              "coordination": int(d["coordination"]), "shape": [int(x) for x in d["shape"]]}
+                             for s, d in info.items()]}
+            outcome = "ok"
+        except Exception:  # noqa
+            tab, outcome = {"t": "table", "edges": s_edges, "phys": phys, "sites": []}, "raise"
+        ses.regs = {"tab": tab}
+        ses._emit("site_info", {"sym": sym, "variant": vname}, [], ["tab"], "method", outcome, "")
     ses.close()
